@@ -127,7 +127,15 @@ impl AckWorld {
             }
         }
         let mut c = self.ep.clone();
-        let pk = guard("get_packets_to_send", || c.get_packets_to_send())?;
+        let mut pk = guard("get_packets_to_send", || c.get_packets_to_send())?;
+        // how often an ack packet is emitted is not part of any statement (an implementation may pace them):
+        // look at the first one that comes out within a few flushes
+        for _ in 0..3 {
+            if !pk.is_empty() || self.model_pending.is_empty() || c.disconnect_reason().is_some() {
+                break;
+            }
+            pk = guard("get_packets_to_send", || c.get_packets_to_send())?;
+        }
         if let (Some(r), true) = (c.disconnect_reason(), self.oracles & O_SIZE != 0) {
             return Err(Violation::new(
                 format!("ACK/flush-disconnects/{}", super::c01::reason_class(&r)),
@@ -141,6 +149,9 @@ impl AckWorld {
             if !pk.is_empty() && self.oracles & O_EQUAL != 0 {
                 return Err(Violation::new("ACK/ack-for-empty-set", format!("{} packets emitted with nothing to acknowledge", pk.len())));
             }
+            return Ok(());
+        }
+        if pk.is_empty() {
             return Ok(());
         }
         if pk.len() != 1 {
